@@ -520,4 +520,10 @@ def run_check(pid, fn):
         log("INCONCLUSIVE: timeout %s" % ex)
         ctx.cleanup()
         sys.exit(2)
+    except Exception:
+        # a defect of the check itself: never a verdict; the scratch directory is still removed
+        import traceback
+        log("INCONCLUSIVE: the check failed:\n" + traceback.format_exc())
+        ctx.cleanup()
+        sys.exit(2)
     sys.exit(rc)
